@@ -70,6 +70,7 @@ fn parse_path() {
     const _CASE_1_LEN: usize = CASE_1.len();
     assert_parse!(CASE_1, Request {
         __buf__: metadataize(CASE_1),
+        __carry__: (0, 0),
         method:  Method::GET,
         path:    Path::from_literal("/hello.html"),
         query:   QueryParams::new(b""),
@@ -99,6 +100,7 @@ fn parse_path() {
     const _CASE_2_LEN: usize = CASE_2.len();
     assert_parse!(CASE_2, Request {
         __buf__: metadataize(CASE_2),
+        __carry__: (0, 0),
         method:  Method::POST,
         path:    Path::from_literal("/signup"),
         query:   QueryParams::new(b""),
@@ -135,6 +137,7 @@ fn parse_path() {
         const _CASE_3_LEN: usize = CASE_3.len();
         assert_parse!(CASE_3, Request {
             __buf__: metadataize(CASE_3),
+            __carry__: (0, 0),
             method:  Method::POST,
             path:    Path::from_literal("/foo.php"),
             query:   QueryParams::from([
